@@ -209,6 +209,7 @@ package corebgp
 //@   ensures [fault_identifier] err != nil && notifOf(err).Subcode == 3 ==> multicast || collision
 //@   ensures [fault_capability_missing] err != nil && notifOf(err).Subcode == 7 ==> scanned && (forall k :: 0 <= k && k < cL ==> caps[k].Code != 65) && len(notifOf(err).Data) == 6 && notifOf(err).Data[0] == 65 && notifOf(err).Data[1] == 4 && be32(notifOf(err).Data, 2) == remoteAS
 //@   ensures [fault_capability_length] err != nil && notifOf(err).Subcode == 0 ==> scanned && (exists k :: 0 <= k && k < cL && caps[k].Code == 65 && len(caps[k].Value) != 4)
+//@   ensures [data_small] err != nil ==> len(notifOf(err).Data) <= 6
 //@   ensures [subcode_known] err != nil ==> notifOf(err).Subcode == 0 || notifOf(err).Subcode == 1 || notifOf(err).Subcode == 2 || notifOf(err).Subcode == 3 || notifOf(err).Subcode == 6 || notifOf(err).Subcode == 7
 
 // ---- OPEN encoding (C14) ----
